@@ -667,3 +667,41 @@ func zeroGlobalLoad(v ssa.Value) bool {
 	}
 	return zero
 }
+
+// freshCopyKind: v is a freshly allocated slice holding a copy of a value matched by src. The recognised forms:
+// "append" - append(<empty or nil slice>, src...); "clone" - bytes.Clone(src) / slices.Clone(src);
+// "make" - a make([]T, ...) (the caller checks the copy into it). "" if none.
+func freshCopyKind(v ssa.Value, src func(ssa.Value) bool) (string, *ssa.MakeSlice) {
+	v = origin(strip(v))
+	switch x := v.(type) {
+	case *ssa.MakeSlice:
+		return "make", x
+	case *ssa.Call:
+		n := callName(x)
+		switch {
+		case n == "builtin.append" && len(x.Call.Args) == 2:
+			base := strip(x.Call.Args[0])
+			empty := isNilConst(base)
+			if sl, ok := base.(*ssa.Slice); ok {
+				if al, ok := sl.X.(*ssa.Alloc); ok {
+					if at, ok := al.Type().(*types.Pointer).Elem().Underlying().(*types.Array); ok && at.Len() == 0 {
+						empty = true
+					}
+				}
+			}
+			if mk, ok := base.(*ssa.MakeSlice); ok {
+				if k, isC := constInt(mk.Len); isC && k == 0 {
+					empty = true
+				}
+			}
+			if empty && src(origin(x.Call.Args[1])) {
+				return "append", nil
+			}
+		case (n == "bytes.Clone" || n == "slices.Clone") && len(x.Call.Args) == 1:
+			if src(origin(x.Call.Args[0])) {
+				return "clone", nil
+			}
+		}
+	}
+	return "", nil
+}
